@@ -152,10 +152,17 @@ example : NonDecreasing (1 :: (([⟨8, emptyTag, 5⟩, ⟨8, emptyTag, 9⟩] : L
 example : (step (run (step (init 2 100 0) 7 emptyTag 1).1
     [⟨8, emptyTag, 2⟩, ⟨9, emptyTag, 3⟩, ⟨10, emptyTag, 4⟩, ⟨11, emptyTag, 5⟩]) 7 emptyTag 6).2 = false := by decide
 
-/-- the interval bound is sharp: presented again `2·interval + 1` later, nothing in between: lost
-    (full expiry); and re-seen old signatures re-occupy the new generation: `8` is presented again
-    after the rotation, so it counts (it is one distinct other signature either way) -/
+/-- the interval bound is sharp: presented again `2·interval + 1` later with nothing in between:
+    lost (lazy full expiry) -/
 example : (step (step (init 2 10 0) 7 emptyTag 1).1 7 emptyTag 32).2 = false := by decide
+
+/-- re-seen old signatures re-occupy the new generation (why the bound counts ALL distinct other
+    signatures, not only never-seen ones): capacity 2; `8` was seen before `7` is recorded; between
+    the two presentations of `7` come `8` (old) and `9` (the only never-seen one, 1 < capacity) —
+    yet `7` is lost, because `8` re-occupied a slot of the new generation.  Two distinct others = the
+    capacity, so the theorem promises nothing here. -/
+example : (step (run (init 2 100 0) [⟨8, emptyTag, 1⟩, ⟨7, emptyTag, 2⟩, ⟨8, emptyTag, 3⟩, ⟨9, emptyTag, 4⟩]) 7 emptyTag 5).2 = false ∧
+    distinctOthers 7 [⟨8, emptyTag, 3⟩, ⟨9, emptyTag, 4⟩] = 2 := by decide
 
 /-- tags: same non-empty tag → not reported; different tag → reported; EmptyTag → reported -/
 example : (step (step (init 4 10 0) 7 [1] 1).1 7 [1] 2).2 = false ∧
